@@ -188,6 +188,17 @@ def op_reopen(run):
         run.hashes[part] = histories.part_hash(part)
     run.id_dups, run.slide_ids, run.rel_maps, run.handles, run.shape_handles, run.ref_users = {}, {}, {}, [], [], {}
     run.slides_accessed = False
+    # ... and what the re-opened INPUT already lacked (references to relationships it does not hold) and how its parts were named
+    from . import opcx
+
+    pin = opcx.Pkg.from_bytes(data)
+    run.loaded_types = {}
+    for part in run.prs.part.package.iter_parts():
+        t = pin.ctype(str(part.partname)) if pin.has_part(str(part.partname)) else None
+        if t is not None:
+            run.loaded_types[id(part)] = (part, str(part.partname), t)
+    run.voided_in_input = {(src, r_.id) for src in pin.part_names() for r_ in (pin.rels(src) or []) if not r_.external and not pin.has_part(r_.target)}
+    run.voided_in_input |= {(src, val) for src in pin.part_names() for _a, val in pin.r_refs(src) if val and val not in {r_.id for r_ in (pin.rels(src) or [])}}
     run.acc.count("reopen_and_continue")
     return ""
 
